@@ -360,6 +360,16 @@ def directed() -> Iterator[Tuple[str, G.Script]]:
     s.round([s.rd(2, cd.MT_SUBSCRIBE, G.p_i32(cd.MT_CLIENT_CLOSED))])
     s.round([], dt=2000, fail={1: "hdr"}, accept=True)
     yield "stale_wlist_tick_after_accept", probe(s)
+    # ... and who is owed a notice there: the accept INFO line kills connection 1 (routed by the PREVIOUS poll); connection 2
+    # (CLIENT_CLOSED) was writable then and is handed the CLIENT_CLOSED frame, so no FAILED_MESSAGE is due although the round
+    # reads nothing and nobody is writable by its own (absent) poll: a subscriber is surely not ready only if NEITHER poll
+    # reported it (Spec: `checkDeparturesAny`); logger 3 hears FAILED_MESSAGE and would be the observer
+    s = G.Script(); connect_n(s, 3, loggers=[3])
+    s.round([s.rd(1, cd.MT_SUBSCRIBE, G.p_i32(cd.MT_RTMA_LOG_INFO))])
+    s.round([s.rd(2, cd.MT_SUBSCRIBE, G.p_i32(cd.MT_CLIENT_CLOSED))])
+    s.round([s.rd(3, cd.MT_SUBSCRIBE, G.p_i32(cd.MT_FAILED_MESSAGE))])
+    s.round([], fail={1: "hdr"}, accept=True)
+    yield "stale_wlist_owed_after_accept", probe(s)
 
     # --- re-entrancy: while a manager-originated message is being delivered, the failure handling publishes further
     # manager messages which are themselves undeliverable somewhere
